@@ -46,7 +46,21 @@ pub enum CompileResult {
     TooBig(usize),
 }
 
+/// Builder gates (before pruning) a single compilation may use: hook H6 turns a compilation that
+/// blows up (possible on a changed tree) into a counted `TooBig` instead of a stuck worker thread.
+pub const BUILDER_GATE_LIMIT: usize = 4_000_000;
+
 pub fn compile_all(src: &str) -> CompileResult {
+    garble_lang::verif_hooks::set_gate_limit(Some(BUILDER_GATE_LIMIT));
+    let r = compile_all_inner(src);
+    garble_lang::verif_hooks::set_gate_limit(None);
+    match r {
+        CompileResult::Crashed(m) if m.contains("verif_hooks: gate limit") => CompileResult::TooBig(BUILDER_GATE_LIMIT),
+        r => r,
+    }
+}
+
+fn compile_all_inner(src: &str) -> CompileResult {
     let on = match gl::compile(src, true, false) {
         CompileOutcome::Ok(p) => p,
         CompileOutcome::Rejected(k, m) => return CompileResult::Rejected(k, m),
